@@ -1,8 +1,17 @@
-import GopatchModel.FileM
+import GopatchModel.Spec.Frame
 namespace Gopatch.C05
+open Gopatch
+
+/-- **Frame.** Replacing a site stores one value in one slot: with that slot blanked, the file
+tree after the replacement equals the file tree before it — every other declaration, statement,
+expression and list element keeps its place and content. -/
+theorem replacement_changes_only_its_slot (pid fld : Nat) (idx : Option Nat) (nv : V) (tree : V) :
+    maskV pid fld idx (setV pid fld idx nv tree) = maskV pid fld idx tree :=
+  set_changes_only_slot pid fld idx nv tree
 
 mutual
-/-- a tree that does not contain the node `pid` is left untouched by a slot update -/
+/-- a tree that does not contain the node `pid` is left untouched by a slot update (a site
+nested in code that an outer replacement discarded has no effect) -/
 theorem setV_absent (pid fld : Nat) (idx : Option Nat) (nv : V) :
     ∀ v, hasId pid v = false → setV pid fld idx nv v = v
   | .pos _ _, _ => by simp [setV]
@@ -29,5 +38,40 @@ theorem setVs_absent (pid fld : Nat) (idx : Option Nat) (nv : V) :
       simp only [hasIdL, Bool.or_eq_false_iff] at h
       simp [setVs, setV_absent pid fld idx nv v h.1, setVs_absent pid fld idx nv vs h.2]
 end
+
+/-- one step of the replacement loop: either the generated value is not admissible in the
+slot and the tree is unchanged, or exactly that slot is overwritten -/
+theorem applySites_step (c : Change) (assoc : List (Nat × Nat)) (s : Site) (ss : List Site) (tree : V) (give : V)
+    (hg : nodeReplace c assoc s.data = .ok give) :
+    applySites c assoc (s :: ss) tree =
+      applySites c assoc ss (if assignable give s.slotTy then setV s.parent s.field s.index give tree else tree) := by
+  simp [applySites, hg, bind, Except.bind]
+
+/-- the package clause changes only if the '+' side names a package -/
+theorem package_kept (c : Change) (f f' : FileM) (k : Nat) (h : applyChange c f = .ok f' k) (hp : c.plus.pkg = "") :
+    f'.pkg = f.pkg := by
+  cases hm : fileMatch c f with
+  | none => simp [applyChange, hm] at h
+  | some ds =>
+    obtain ⟨d, sites⟩ := ds
+    simp only [applyChange, hm] at h
+    generalize hap : applySites c c.assoc sites (if (c.plus.pkg != "") = true then renamePkg f.tree (if (c.plus.pkg != "") = true then c.plus.pkg else f.pkg) else f.tree) = r1 at h
+    cases r1 with
+    | error e => simp at h
+    | ok tree =>
+      simp only at h
+      generalize hai : addImports c d c.plus.imports f.imports [] = r2 at h
+      cases r2 with
+      | error e => simp at h
+      | ok r =>
+        obtain ⟨imps, names⟩ := r
+        simp only [Outcome.ok.injEq] at h
+        obtain ⟨rfl, _⟩ := h
+        simp [hp]
+
+/-- a change that does not match leaves the file as it is -/
+theorem noMatch_identity (c : Change) (cs : List Change) (f : FileM) (m : Bool)
+    (h : fileMatch c f = none) : applyChangesCli (c :: cs) f m = applyChangesCli cs f m := by
+  simp [applyChangesCli, applyChange, h]
 
 end Gopatch.C05
